@@ -145,3 +145,61 @@ func usedValue(v ssa.Value) bool {
 	}
 	return false
 }
+
+// delegateOf returns fn itself when has(fn); otherwise the package function fn hands its work to: a
+// static callee in fn's own package for which has() holds and that is called from exactly one site
+// in the package (the instances of a generic helper are separate functions, so a helper shared by
+// three entry points through three instantiations has one call site each). The delegate's
+// parameters are bound to the arguments of that call (core.BindParam), so that value flow and
+// calls of function-valued parameters resolve to what the entry point passed. nil if there is none.
+func delegateOf(p *core.Prog, fn *ssa.Function, has func(*ssa.Function) bool) *ssa.Function {
+	cur := fn
+	for depth := 0; depth < 3; depth++ {
+		if has(cur) {
+			return cur
+		}
+		var next *ssa.Function
+		var site ssa.CallInstruction
+		core.EachCall(cur, func(ci ssa.CallInstruction) {
+			callee := ci.Common().StaticCallee()
+			if callee == nil || len(callee.Blocks) == 0 || core.FnPkgPath(callee) != core.FnPkgPath(fn) || callee == cur {
+				return
+			}
+			ok := has(callee)
+			if !ok {
+				// one more level is looked at below
+				core.EachCall(callee, func(cj ssa.CallInstruction) {
+					if c2 := cj.Common().StaticCallee(); c2 != nil && len(c2.Blocks) > 0 && core.FnPkgPath(c2) == core.FnPkgPath(fn) && has(c2) {
+						ok = true
+					}
+				})
+			}
+			if ok && next == nil {
+				next, site = callee, ci
+			}
+		})
+		if next == nil {
+			return nil
+		}
+		sites := 0
+		for _, g := range p.FuncsIn(func(pp string) bool { return pp == core.FnPkgPath(fn) }) {
+			for _, h := range core.WithClosures(g) {
+				core.EachCall(h, func(ci ssa.CallInstruction) {
+					if ci.Common().StaticCallee() == next {
+						sites++
+					}
+				})
+			}
+		}
+		if sites != 1 {
+			return nil
+		}
+		for k, prm := range next.Params {
+			if k < len(site.Common().Args) {
+				core.BindParam(prm, site.Common().Args[k])
+			}
+		}
+		cur = next
+	}
+	return nil
+}
